@@ -56,10 +56,24 @@ def run(ctx):
                          ("long", k.blob(0) + b"\0"), ("badparam", k.blob(0)[:8] + b"\x17" + k.blob(0)[9:]), ("empty", b"")):
             for cb in ("accept", "reject"):
                 cases.append(Case(sign_line(k.H, blob, b"x", cb), "sign/pre-" + nm, {"key": k, "c": None, "cb": cb}))
+    # parameter sets whose signature length straddles the 65535-byte limit of the signature object: whatever the library decides
+    # (refuse, or sign), the protocol must hold - in particular no callback when no signature can be produced
+    for H in ("S32", "K32"):
+        seed = rng.bytes_(32)
+        for ps in ([(1, 5)] * 7 + [(2, 5)], [(2, 5)] + [(1, 5)] * 7, [(1, 1)] * 7 + [(2, 1)], [(1, 1)] * 8, [(1, 5)] * 6 + [(2, 5)] * 2, [(1, 5)] * 7 + [(3, 1)]):
+            pk = Key(H, ps, seed, sk_blob(H, ps, seed, 0), b"")
+            for cb in ("accept", "reject"):
+                for ax in (None, bytes(300)):
+                    cases.append(Case(sign_line(H, pk.blob(7), b"limit", cb, ax), "sign/siglen-limit/%s" % cb, {"key": pk, "c": 7, "cb": cb, "limit": True}))
     for c, a, b in ctx.both(cases, proj):
         k, cnt, cb = c.meta["key"], c.meta["c"], c.meta["cb"]
         if a.startswith("panic"):
+            f = fields(a)
+            if f.get("cb", "none") != "none":
+                ctx.fail("the callback was invoked (the key advanced) although no signature was produced: signing panicked afterwards", [c.line], a[:300], "no callback when no signature can be produced")
             continue
+        if c.meta.get("limit") and a.startswith("err") and fields(a).get("cb") == "none":
+            continue   # refused parameter set: nothing happened (correct)
         f = fields(a)
         calls = [] if f.get("cb") == "none" else f.get("cb", "").split(",")
         if len(calls) > 1:
